@@ -2,6 +2,7 @@
   Bridge for the static extracts (tables regenerated from the AST on every run).
 -/
 import BLDFM.Generated.Tables
+import BLDFM.Cache
 
 namespace BLDFM.Bridge
 
@@ -33,5 +34,11 @@ theorem percentile_steps_table :
       "cumsum = np.cumsum(sorted_vals) * cell_area", "total = cumsum[-1]", "target = pct * total",
       "k = np.searchsorted(cumsum, target)", "level = sorted_vals[min(k, len(sorted_vals) - 1)]",
       "area = (k + 1) * cell_area", "return (float(level), float(area))"] := by decide
+
+/-- C15: the cache configuration read off the code hashes every result-determining solver argument,
+keys both call sites on the resolved halo, writes atomically and guards the load -/
+theorem cache_cfg_table :
+    (∀ f ∈ BLDFM.Fld.determining, f ∈ cacheCfg.keyFields) ∧ cacheCfg.haloResolvedAtGet = true ∧
+    cacheCfg.haloResolvedAtPut = true ∧ cacheCfg.atomicWrite = true ∧ cacheCfg.guardedLoad = true := by decide
 
 end BLDFM.Bridge
